@@ -453,7 +453,33 @@ pub fn all_single_calls(rng: &mut Rng, keep: (u32, u32), reps_narrow: usize) -> 
     out
 }
 
+/// mission.msg / titlemsg (th095: 3 text lines per entry, th125: 6): entries with ids at and around the
+/// field widths and text lines that are empty, white space only (ASCII and U+3000), or end in white space
+pub fn gen_mission(rng: &mut Rng, game: Game) -> GenSource {
+    let lines = if game == Game::Th095 { 3 } else { 6 };
+    let mut text = String::new();
+    if rng.chance(1, 4) { text.push_str("const int STAGE = 2 + 1;\n"); }
+    for _ in 0..1 + rng.below(4) {
+        let n = rng.below(lines + 1);
+        let ls: Vec<String> = (0..n).map(|_| format!("\"{}\"", match rng.below(8) {
+            0 => String::new(), 1 => " ".to_string(), 2 => "\u{3000}".to_string(), 3 => "text ".to_string(), 4 => "  x".to_string(),
+            5 => "あいう\u{3000}".to_string(), _ => format!("line{}", rng.below(100)) })).collect();
+        // (a `text` array shorter than the entry's number of lines is an error today; full arrays most of the time)
+        let ls = if rng.chance(1, 6) { ls } else { let mut l = ls; while l.len() < lines { l.push(format!("\"{}\"", if rng.chance(1, 3) { " " } else { "" })); } l };
+        let stage = *rng.pick(&[0u32, 1, 2, 12, 255, 256, 65535]);
+        let scene = *rng.pick(&[0u32, 1, 9, 255, 65535]);
+        if game == Game::Th095 {
+            text.push_str(&format!("entry {{ stage: {stage}, scene: {scene}, face: {}, point: {}, text: [{}] }}\n", rng.below(5), rng.pick(&[0u32, 1, 1000, 0x7fffffff]), ls.join(", ")));
+        } else {
+            text.push_str(&format!("entry {{ stage: {stage}, scene: {scene}, player: {}, unknown_1: {}, unknown_2: {}, point_1: {}, point_2: {}, furigana: [[0, 0], [{}, {}], [3, 4]], text: [{}] }}\n",
+                rng.pick(&[0u32, 1, 65535]), rng.pick(&[0u32, 1, 255]), rng.pick(&[0u32, 7, 255]), rng.below(1000), rng.below(1000), rng.below(50), rng.below(50), ls.join(", ")));
+        }
+    }
+    GenSource { format: Format::Mission, game, text, maps: vec![] }
+}
+
 pub fn gen_any(rng: &mut Rng) -> GenSource {
+    if rng.chance(1, 14) { let g = if rng.chance(1, 2) { Game::Th095 } else { Game::Th125 }; return gen_mission(rng, g); }
     match rng.below(10) {
         0 | 1 => { let g = *rng.pick(GAMES_MSG); gen_msg(rng, g, false) },
         2 => { let g = *rng.pick(GAMES_END); gen_msg(rng, g, true) },
